@@ -99,7 +99,7 @@ class Ctx:
             # the floor guards against a rule that no longer sees its sites at all; ordinary maintenance (a worker extracted, sites
             # consolidated into a helper, a table row merged) legitimately moves the count, so the armed threshold is half of what was
             # confirmed by hand (never below one).  Lost table rows are reported by the row-level comparison of the rule itself.
-            floor = max(1, n // 2)
+            floor = max(1, n // 2) if n else 0          # a rule whose expected count is zero ("no such construct") has no floor
             if got < floor:
                 raise AnalysisError(f'rule {rid} matched {got} instance(s), fewer than half of the {n} confirmed by hand on the '
                                     f'pinned tree: the rule no longer sees its sites (vacuous pass refused)')
